@@ -158,6 +158,24 @@ func c06Monitor(c *Ctx, asset, name string, cf cfgVar, cs string, pd int, cont b
 			}
 		}
 	}
+	// the periods cover the window: none starts in the future, and the first one is the one that contains the start of the
+	// time-shift window (periods are counted from availabilityStartTime)
+	{
+		astMS, _ := dateToMS(mm.AST)
+		lastStart, _ := durToMS(mm.Periods[len(mm.Periods)-1].Start)
+		if lastStart > now-astMS {
+			c.Violate("period-in-future", fmt.Sprintf("the last period starts at %d ms, %d ms after the request instant", lastStart, lastStart-(now-astMS)), rp, nil)
+			return
+		}
+		winStart := now - astMS - int64(cf.tsbd)*1000
+		if winStart < 0 {
+			winStart = 0
+		}
+		if want := winStart / (int64(pd) * 1000) * int64(pd) * 1000; firstStart > want {
+			c.Violate("period-window-start", fmt.Sprintf("the time-shift window starts at %d ms, in the period starting at %d ms, but the first Period starts at %d ms", winStart, want, firstStart), rp, nil)
+			return
+		}
+	}
 	for ai := range ms.Periods[0].Sets {
 		sas := &ms.Periods[0].Sets[ai]
 		ct := asContentType(sas)
